@@ -784,3 +784,146 @@ def gen_merge(rng, tier):
     L.append('m_first')
     L += ['m_next'] * 20
     return L
+
+
+# ------------------------------------------------------------------------------------------------
+# concurrent MVCC layer with the reclamation pipeline (C03, C04, C07; interactive)
+# ------------------------------------------------------------------------------------------------
+
+def gen_mvccconc(rng, tier, sess):
+    nw = rng.choice((1, 2, 2, 3))
+    nr = rng.choice((0, 1, 1, 2))
+    kv = rng.random() < 0.4
+    sess.send('init writers=%d readers=%d cmp=%s' % (nw, nr, 'kv' if kv else 'plain'))
+    n = nw + nr
+    nkeys = rng.choice((1, 2, 3, 5))
+    busy = [False] * n
+    pend = [None] * n
+    jobs = []                 # pending job names
+    held = []                 # creation references per snapshot
+    iters = [dict() for _ in range(n)]     # reader: name -> valid
+    nit = 0
+    stick = rng.random() * 0.7
+    last = 0
+
+    def handle(t, o):
+        parts = o.split(' +')
+        head = parts[0]
+        for j in parts[1:]:
+            jobs.append(j)
+        if head.startswith('at '):
+            busy[t] = True
+            return
+        busy[t] = False
+        p = pend[t]
+        if p and head.startswith('ret'):
+            kind, name = p
+            if kind in ('it_first', 'it_next'):
+                iters[t][name] = (head != 'ret end')
+            elif kind == 'it_new':
+                if head == 'ret ok':
+                    iters[t][name] = False
+            elif kind == 'it_close':
+                iters[t].pop(name, None)
+        pend[t] = None
+
+    def step_job():
+        j = rng.choice(jobs)
+        o = sess.send('step ' + j)
+        parts = o.split(' +')
+        for x in parts[1:]:
+            jobs.append(x)
+        if parts[0].startswith('ret') or parts[0] == 'bad-op':
+            jobs.remove(j)
+
+    def start(t):
+        nonlocal nit
+        k = rng.randrange(nkeys) * 3 + 1
+        if t < nw:
+            r = rng.random()
+            if r < 0.45:
+                pend[t] = ('put', None)
+                handle(t, sess.send('start %d put %d %d' % (t, k, rng.randrange(3) if kv else 0)))
+            elif r < 0.8:
+                pend[t] = ('del', None)
+                handle(t, sess.send('start %d del %d' % (t, k)))
+            elif r < 0.88:
+                pend[t] = ('get', None)
+                handle(t, sess.send('start %d get %d' % (t, k)))
+            else:
+                cands = [i for i, h in enumerate(held) if h > 0]
+                if cands:
+                    s = rng.choice(cands)
+                    held[s] -= 1
+                    pend[t] = ('close', None)
+                    handle(t, sess.send('start %d close %d' % (t, s + 1)))
+        else:
+            valid = [nm for nm, v in iters[t].items() if v]
+            q = rng.random()
+            if valid and q < 0.55:
+                nm = rng.choice(valid)
+                pend[t] = ('it_next', nm)
+                handle(t, sess.send('start %d it_next %s' % (t, nm)))
+            elif iters[t] and q < 0.7:
+                nm = rng.choice(sorted(iters[t]))
+                pend[t] = ('it_close', nm)
+                handle(t, sess.send('start %d it_close %s' % (t, nm)))
+            elif iters[t] and q < 0.8:
+                nm = rng.choice(sorted(iters[t]))
+                pend[t] = ('it_first', nm)
+                handle(t, sess.send('start %d it_first %s' % (t, nm)))
+            elif held and len(iters[t]) < 2:
+                nit += 1
+                nm = 'i%d' % nit
+                s = rng.randrange(len(held))
+                pend[t] = ('it_new', nm)
+                handle(t, sess.send('start %d it_new %s %d' % (t, nm, s + 1)))
+
+    for _ in range(rng.randrange(20, 160 if tier == 'quick' else 600)):
+        r = rng.random()
+        if jobs and r < 0.25:
+            step_job()
+            continue
+        if r < 0.33 and not any(busy[:nw]):
+            o = sess.send('snap')
+            if o.startswith('sn='):
+                held.append(1)
+            continue
+        if r < 0.36:
+            sess.send('state')
+            continue
+        t = last if rng.random() < stick else rng.randrange(n)
+        last = t
+        if busy[t]:
+            handle(t, sess.send('step %d' % t))
+        else:
+            start(t)
+    # drain: finish calls, release iterators and snapshots, run every job, shut down
+    guard = 0
+    while (any(busy) or jobs) and guard < 100000:
+        guard += 1
+        ts = [i for i in range(n) if busy[i]]
+        if ts and (not jobs or rng.random() < 0.6):
+            t = rng.choice(ts)
+            handle(t, sess.send('step %d' % t))
+        else:
+            step_job()
+    for t in range(nw, n):
+        for nm in sorted(iters[t]):
+            pend[t] = ('it_close', nm)
+            handle(t, sess.send('start %d it_close %s' % (t, nm)))
+            while busy[t]:
+                handle(t, sess.send('step %d' % t))
+    for s in range(len(held)):
+        while held[s] > 0:
+            held[s] -= 1
+            pend[0] = ('close', None)
+            handle(0, sess.send('start 0 close %d' % (s + 1)))
+            while busy[0]:
+                handle(0, sess.send('step 0'))
+    guard = 0
+    while jobs and guard < 100000:
+        guard += 1
+        step_job()
+    sess.send('state')
+    sess.send('shutdown')
